@@ -1,5 +1,9 @@
 (* proto/jsonproto/jsonproto.go (Pack, Unpack, escapeBody) and
    mixer/websocket/jsonSubProto/jsonSubProto.go (Pack, Unpack, escapeBody), byte exact.
+   The service method is written like the body: '"' + escapeBody(name) + '"' (repaired code);
+   the status query string and the metadata query string are written with strconv.Quote.
+   The code before that repair (service method through strconv.Quote / %q) is kept as the
+   [..._prefix] definitions.
    strconv.Quote is modelled concretely on ASCII bytes (maximal runs of non-ASCII bytes go
    through the section variable [quote_hi]: their rendering depends on UTF-8 validity and on
    the Unicode tables).  github.com/tidwall/gjson v1.2.2 (Get / parseObject / parseString /
@@ -150,15 +154,29 @@ Section Json.
 
   Definition go_quote (s : bytes) : bytes := dqt :: goq_body s [] ++ [dqt].
 
-  (* the members shared by both JSON frames, up to and including the body string *)
-  Definition json_members (esc : byte -> bytes) (m : msg) (body : bytes) : bytes :=
+  (* the members shared by both JSON frames, up to and including the body string; [mq] writes
+     the service method member *)
+  Definition json_members_with (mq : bytes -> bytes) (esc : byte -> bytes) (m : msg) (body : bytes) : bytes :=
     L_seq ++ format_int 10 (m_seq m)
     ++ L_mtype ++ format_int 10 (byte_z (m_mtype m))
-    ++ L_method ++ go_quote (m_method m)
+    ++ L_method ++ mq (m_method m)
     ++ L_status ++ go_quote (status_encode (m_status m))
     ++ L_meta ++ go_quote (args_encode (m_meta m))
     ++ L_codec ++ format_int 10 (byte_z (m_codec m))
     ++ L_body ++ dqt :: flat_map esc body ++ [dqt].
+
+  (* '"' + escapeBody(s) + '"' *)
+  Definition esc_str (esc : byte -> bytes) (s : bytes) : bytes := dqt :: flat_map esc s ++ [dqt].
+
+  (* the repaired code: the service method through the same escape function as the body *)
+  Definition json_members (esc : byte -> bytes) (m : msg) (body : bytes) : bytes :=
+    json_members_with (esc_str esc) esc m body.
+
+  (* before the repair: strconv.Quote(m.ServiceMethod()) / %q *)
+  Definition json_members_prefix (esc : byte -> bytes) (m : msg) (body : bytes) : bytes :=
+    json_members_with go_quote esc m body.
+  Definition json_pack_prefix (esc : byte -> bytes) (lim : N) (p : list filter) (m : msg)
+    : res (bytes * N) := pfx_pack lim p (json_members_prefix esc m (m_body m) ++ [ "}"%byte ]).
 
   Definition json_payload (esc : byte -> bytes) (m : msg) : bytes :=
     json_members esc m (m_body m) ++ [ "}"%byte ].
@@ -178,6 +196,13 @@ Section Json.
     : res (bytes * N) :=
     body <- of_option (pipe_pack p (m_body m)) ;;
     let b := wsj_payload esc (pipe_ids p) m body in
+    Ok (b, sub_size lim b).
+
+  (* jsonSubProto.Pack before the repair (format with %q for the service method) *)
+  Definition wsj_pack_prefix (esc : byte -> bytes) (lim : N) (p : list filter) (m : msg)
+    : res (bytes * N) :=
+    body <- of_option (pipe_pack p (m_body m)) ;;
+    let b := json_members_prefix esc m body ++ L_xfer ++ jints (pipe_ids p) ++ [ "}"%byte ] in
     Ok (b, sub_size lim b).
 
   (* ---- reading: gjson on the written shape ---- *)
@@ -402,8 +427,9 @@ Section Json.
     Ok (m, pipe_ids p, sub_size lim b).
 End Json.
 
-(* guard of the round trip: the service method consists of bytes that strconv.Quote writes
-   in a form JSON (gjson) reads back: printable ASCII and \b \f \n \r \t *)
+(* guard of the round trip BEFORE the repair of the service method member (and what the status
+   and metadata query strings, still written with strconv.Quote, consist of): bytes that
+   strconv.Quote writes in a form JSON (gjson) reads back: printable ASCII and \b \f \n \r \t *)
 Definition json_safe (c : byte) : bool :=
   let n := b2n c in
   ((32 <=? n) && (n <=? 126)) || (n =? 8) || (n =? 12) || (n =? 10) || (n =? 13) || (n =? 9).
